@@ -143,6 +143,10 @@ pub struct WriteSpec {
     /// dropped (or committed with one byte) on the same cache — a long-lived process
     #[serde(default)]
     pub churn: u32,
+    /// streamed writes: this many other size-declared writers (by address, the pool's next
+    /// value) are OPEN while this writer is created, written and committed; they commit after it
+    #[serde(default)]
+    pub crowd: u16,
 }
 
 impl WriteSpec {
@@ -167,6 +171,7 @@ impl WriteSpec {
             decoy_opts: false,
             chdir_mid: None,
             churn: 0,
+            crowd: 0,
         }
     }
     pub fn streamed(&self) -> bool {
@@ -269,6 +274,9 @@ pub enum BDamage {
     /// `total` bytes of garbage lines of `line` bytes each (invalid UTF-8 included) are
     /// appended behind the records: a long damaged tail
     GarbageTail { total: usize, line: usize, salt: u64 },
+    /// the bucket file is replaced by a symbolic link to a copy of itself (a symlink farm of a
+    /// cache, as `cp -rs` or a sandbox makes): nothing about its records changes
+    BecomeSymlink,
 }
 
 #[derive(Clone, Debug, Serialize, Deserialize, PartialEq)]
